@@ -60,7 +60,7 @@ pub fn install(pre : &PreD)
     f.cmd.omit = [false, false];
     f.cmd.fail_code = false;
     f.cmd.spawn_error = false;
-    f.cmd.fresh_mtime = pre.fresh;
+    f.cmd.fresh_mtime = [pre.fresh, pre.fresh2];
     f.snapshot_initial();
 }
 
